@@ -10,19 +10,21 @@
 EXTENDS Entries, Sequences, TLC
 
 CONSTANTS Universe, MaxCalls,
-          PutAtomic     \* pruning and writing of an insert happen in one table access (D11 when FALSE)
+          PutAtomic,    \* pruning and writing of an insert happen in one table access (D11 when FALSE)
+          FailKeepsTx   \* a store call that fails leaves the open write transaction alone (FALSE: it is dropped)
 
 VARIABLES durable,   \* committed contents
           work,      \* contents as seen through the open transaction
           txopen,    \* a write transaction is open
           aged,      \* the open transaction is older than MAX_COMMIT_DELAY
           pending,   \* remaining access steps of the call in progress: sequence of <<kind, entry>>
-          boundary,  \* history: contents at every call boundary since (and including) the last commit point
+          boundary,  \* history: specified contents at every call boundary since (and including) the last commit point
+          acked,     \* history: the contents according to the acknowledged calls (sequential meaning, Entries!Put)
           ncalls, crashed
-vars == <<durable, work, txopen, aged, pending, boundary, ncalls, crashed>>
+vars == <<durable, work, txopen, aged, pending, boundary, acked, ncalls, crashed>>
 
 Init == /\ durable = {} /\ work = {} /\ txopen = FALSE /\ aged = FALSE /\ pending = <<>>
-        /\ boundary = {{}} /\ ncalls = 0 /\ crashed = FALSE
+        /\ boundary = {{}} /\ acked = {} /\ ncalls = 0 /\ crashed = FALSE
 
 \* the access steps of Store::put for entry e
 Steps(e) == IF PutAtomic THEN << <<"check", e>>, <<"prune+put", e>> >>
@@ -31,7 +33,21 @@ Steps(e) == IF PutAtomic THEN << <<"check", e>>, <<"prune+put", e>> >>
 BeginInsert(e) ==
   /\ ~crashed /\ pending = <<>> /\ ncalls < MaxCalls
   /\ pending' = Steps(e) /\ ncalls' = ncalls + 1
-  /\ UNCHANGED <<durable, work, txopen, aged, boundary, crashed>>
+  /\ UNCHANGED <<durable, work, txopen, aged, boundary, acked, crashed>>
+
+\* a store call whose closure fails after the write transaction was opened (set_download_policy / register_useful_peer
+\* on a missing document, a capability clash on import): Store::modify returns the error
+FailingCall ==
+  /\ ~crashed /\ pending = <<>> /\ ncalls < MaxCalls
+  /\ LET commitFirst == txopen /\ aged
+         dur == IF commitFirst THEN work ELSE durable
+     IN /\ durable' = dur
+        /\ work' = IF FailKeepsTx THEN work ELSE dur
+        /\ txopen' = FailKeepsTx
+        /\ aged' = FALSE
+        /\ boundary' = IF commitFirst THEN {acked} ELSE boundary
+  /\ ncalls' = ncalls + 1
+  /\ UNCHANGED <<pending, acked, crashed>>
 
 \* one table access: the age-based commit fires first if the transaction is aged
 Access ==
@@ -51,26 +67,29 @@ Access ==
         /\ aged' = FALSE
         /\ pending' = rest
         \* a commit restarts the history of candidate boundaries at the committed state; finishing a call adds one
-        /\ boundary' = (IF commitFirst THEN (IF pending = Steps(e) THEN {work} ELSE boundary) ELSE boundary)
-                       \cup (IF rest = <<>> THEN {w2} ELSE {})
+        /\ acked' = IF rest = <<>> THEN Put(acked, e) ELSE acked
+        /\ boundary' = (IF commitFirst THEN (IF pending = Steps(e) THEN {acked} ELSE boundary) ELSE boundary)
+                       \cup (IF rest = <<>> THEN {Put(acked, e)} ELSE {})
   /\ UNCHANGED <<ncalls, crashed>>
 
 Tick == /\ ~crashed /\ txopen /\ ~aged /\ aged' = TRUE
-        /\ UNCHANGED <<durable, work, txopen, pending, boundary, ncalls, crashed>>
+        /\ UNCHANGED <<durable, work, txopen, pending, boundary, acked, ncalls, crashed>>
 
 \* flush / snapshot read between two calls
 Flush == /\ ~crashed /\ pending = <<>> /\ txopen
-         /\ durable' = work /\ txopen' = FALSE /\ aged' = FALSE /\ boundary' = {work}
-         /\ UNCHANGED <<work, pending, ncalls, crashed>>
+         /\ durable' = work /\ txopen' = FALSE /\ aged' = FALSE /\ boundary' = {acked}
+         /\ UNCHANGED <<work, pending, acked, ncalls, crashed>>
 
 Crash == /\ ~crashed /\ crashed' = TRUE
-         /\ UNCHANGED <<durable, work, txopen, aged, pending, boundary, ncalls>>
+         /\ UNCHANGED <<durable, work, txopen, aged, pending, boundary, acked, ncalls>>
 
-Next == (\E e \in Universe : BeginInsert(e)) \/ Access \/ Tick \/ Flush \/ Crash
+Next == (\E e \in Universe : BeginInsert(e)) \/ FailingCall \/ Access \/ Tick \/ Flush \/ Crash
 Spec == Init /\ [][Next]_vars
 
 \* C06: the state found after a crash is one the live store had between two complete calls,
 \* not older than the last flush
 CrashStateIsBoundary == crashed => durable \in boundary
 DurableIsNormal == durable = Kept(durable)
+\* between two calls the live store holds exactly what the acknowledged calls say
+LiveIsAcked == (pending = <<>>) => work = acked
 =============================================================================
